@@ -101,6 +101,8 @@ package unserializers
 //@   inline
 //@   requires [C01:pre] f != nil
 //@   ensures [C01:spdx:filenode:scalars] result != nil && spdxFileNodeOf(result, f)
+//@   ensures [C01:spdx:filenode:hashes] len(f.Checksums) > 0 ==> result.Hashes != nil && (forall k int32 :: (k in result.Hashes) ==> (exists j int :: 0 <= j && j < len(f.Checksums) && result.Hashes[k] == f.Checksums[j].Value))
+//@   invariant L0: [C01:inv] n != nil && fresh(n) && n.Hashes != nil && fresh(n.Hashes) && (forall k int32 :: (k in n.Hashes) ==> (exists j int :: 0 <= j && j < _i && n.Hashes[k] == f.Checksums[j].Value))
 
 // ---------------------------------------------------------------------------
 // C02: where each attribute of a CycloneDX component lands in the node (reader side)
